@@ -129,30 +129,24 @@ theorem stepT_inv (s s' : St) (p : Pid) : Inv s → stepT s p = some s' → Inv 
   | vu => exact t_vu s s' p h hpc hs
   | vr => exact t_vr s s' p h hpc hs
 
-set_option maxHeartbeats 4000000 in
 theorem callO_inv (s s' : St) (pc : OPc) (hpc : (∃ e, pc = .pu0 e) ∨ pc = .pq ∨ pc = .cll ∨ (∃ e, pc = .ptl e)) :
     Inv s → (match s.opc with | .idle => some { s with opc := pc } | _ => none) = some s' → Inv s' := by
   intro h hs
   split at hs
   · rename_i heq
     simp at hs; subst hs
-    cases h
-    simp only [heq, ownerLocked, carry, resetting, ownerFlight] at *
     rcases hpc with ⟨e, rfl⟩ | rfl | rfl | ⟨e, rfl⟩
-    all_goals tso_finish
+    all_goals tso_fastO h heq [carryC]
   · simp at hs
 
-set_option maxHeartbeats 4000000 in
 theorem callT_inv (s s' : St) (p : Pid) (pc : TPc) (hpc : pc = .tq0 ∨ pc = .kq0 ∨ pc = .wq0 ∨ pc = .vq0 ∨ ∃ e, pc = .tpl e) :
     Inv s → (match s.tpc p with | .idle => some { s with tpc := upd s.tpc p pc } | _ => none) = some s' → Inv s' := by
   intro h hs
   split at hs
   · rename_i heq
     simp at hs; subst hs
-    cases h
-    simp only [ownerLocked, carry, resetting, ownerFlight] at *
     rcases hpc with rfl | rfl | rfl | rfl | ⟨e, rfl⟩
-    all_goals tso_finish
+    all_goals tso_fastT h p []
   · simp at hs
 
 /-- a drain from the buffer of a thief / passer -/
